@@ -16,9 +16,14 @@ COMP = {'<': 'operator.lt', '<=': 'operator.le', '==': 'operator.eq',
         '>': 'operator.gt', '>=': 'operator.ge', '!=': 'operator.ne'}
 PYOP = {'<': _o.lt, '<=': _o.le, '==': _o.eq, '>': _o.gt, '>=': _o.ge,
         '!=': _o.ne}
+VGRID = [None]
 SUFFIXES = {'a', 'alpha', 'b', 'beta', 'rc'}
 VERSIONS = ('1.0', '1.2', '1.5', '1.5.0', '2.0', '0.9', '1.0rc1', '1!1.0',
-            '1!0.5', '1.0.post1')
+            '1!0.5', '1.0.post1', '2.0rc1', '2.0.dev1')
+VERSIONS_THOROUGH = VERSIONS + (
+    '2a1', '1.0.0.0', '1', '0', '0.0', '1.0+local.1', 'v1.0', '1.0.dev0',
+    '1.0a1.dev2', '1.0.post1.dev3', '2!0.1', '1.10', '1.9', '01.0', '1.0-1',
+    '1_0', '1.0c1', '1.0.0rc1', '10.0', '1.0b2', '1!2.0rc1', '3.0.0.0.1')
 
 
 def _version_hook():
@@ -39,6 +44,7 @@ def _version_hook():
 
 def run(ctx):
     rep, world = ctx.report, ctx.world
+    VGRID[0] = VERSIONS_THOROUGH if ctx.thorough else VERSIONS
     rep.explanation = (
         'convert_version_to_int is extracted on symbolic component tuples '
         '(length 1..4) and convert_version_to_str on a symbolic integer '
@@ -183,7 +189,15 @@ def _to_tuple(ctx):
         outcomes, _i = extract(world, thunk, setup=setup)
     finally:
         world.sym_iter_max = old
-    samples = ('1.2.3', '1.2.3a1', '1.0rc2', '1.0beta12', '2.0alpha1',
+    gen = ()
+    if ctx.thorough:
+        gen = tuple('%s%s%s%s' % (a, suf, n, tail)
+                    for a in ('1', '1.2', '10.0.3', '0')
+                    for suf in ('a', 'alpha', 'b', 'beta', 'rc', 'RC', 'c',
+                                'dev', 'post', '.rc', '-rc', 'r', 'pre')
+                    for n in ('', '0', '1', '12')
+                    for tail in ('', '.0', '.dev1'))
+    samples = gen + ('1.2.3', '1.2.3a1', '1.0rc2', '1.0beta12', '2.0alpha1',
                '1.0b3', '1.0.dev1', '1.2a', '1a1.2', '7rc1', '1.0c1',
                '1.0rc', '10.20.30', '1.0RC1', '1.0post1', '6.7rc1.0',
                '5a.6b', '1', '0.0.1', '1..2', '', '1.2.', 'a', '999.999',
@@ -300,13 +314,16 @@ def _is_compatible(ctx):
     outcomes, _i = extract(world, thunk, setup=setup)
 
     def oracle(v):
-        r, c = pv.Version(v['req']), pv.Version(v['cur'])
+        try:
+            r, c = pv.Version(v['req']), pv.Version(v['cur'])
+        except pv.InvalidVersion:
+            return None         # not a version: outside the domain
         if v['same_major'] and r.major != c.major:
             return ('return', False)
         return ('return', c >= r)
     grid_compare(rep, 'R17.3', 'is_compatible', 'requested x current x '
                  'same_major', outcomes,
-                 {req: VERSIONS, cur: VERSIONS, sm: (True, False)}, oracle,
+                 {req: VGRID[0], cur: VGRID[0], sm: (True, False)}, oracle,
                  hooks=[hook])
 
 
@@ -317,7 +334,14 @@ def _predicate(ctx):
                  'versionutils.VersionPredicate.satisfied_by')
     hook, pv = _version_hook()
     cand = T('sym', 'candidate')
-    preds = ['>=1.0', '<1.0,<1.5.0', '>=1.0,<2.0,!=1.5', '==1.0', ' > 1.0 ',
+    if ctx.thorough:
+        extra = ['>=1!2.0', '>=1.0, <1!2.0', '<2.0rc1', '>=1.0.dev1',
+                 '==1.0.post1', '!=1.0+local.1', '>=1.0;', '>=1.0 ,<2.0 ',
+                 '>1', '<=0', '~=1.0', '===1.0', '>=v1.0', '>=1.0,<=1.0',
+                 ',>=1.0', '>=1.0,,<2.0', '>=1.0\n', '\t>=1.0']
+    else:
+        extra = ['>=1!2.0', '<2.0rc1']
+    preds = extra + ['>=1.0', '<1.0,<1.5.0', '>=1.0,<2.0,!=1.5', '==1.0', ' > 1.0 ',
              '<=1.5 , >=1.2', '!=1.0,!=2.0', '>1.0,>1.2', 'bad', '>=', '=1.0',
              '>=1.0,', '>= 1.0 2.0']
     ref_rx = re.compile(r"^\s*(<=|>=|<|>|!=|==)\s*([^\s]+)\s*$")
@@ -358,11 +382,14 @@ def _predicate(ctx):
                 except pv.InvalidVersion:
                     return ('raise', ('ValueError',
                                       'packaging.version.InvalidVersion'))
-            c = pv.Version(v['candidate'])
+            try:
+                c = pv.Version(v['candidate'])
+            except pv.InvalidVersion:
+                return None
             return ('return', all(PYOP[op](c, b) for op, b in parsed))
         grid_compare(rep, 'R17.3', 'VersionPredicate[%s]' % p,
                      'predicate %r over candidate versions' % p, outcomes,
-                     {cand: VERSIONS}, oracle, hooks=[hook])
+                     {cand: VGRID[0]}, oracle, hooks=[hook])
 
 
 def _const_func(value):
